@@ -16,6 +16,8 @@
     d8   -S loop: a failed host *raises* rc to RC_FAILED instead of assigning it
     d9   _extract_rc: read the number before cutting the line (not from one past its first digit)
     late _flush_lines: only a line that contains the marker updates th->rc
+    canc (canceledCountsAsFailure) -S loop: DSH_CANCELED is tested together with DSH_FAILED
+         (`if ((t[i].state == DSH_FAILED || t[i].state == DSH_CANCELED) && rc < RC_FAILED) rc = RC_FAILED;`)
 -/
 import PdshVerif.Base.CInt
 import PdshVerif.Gen.Dsh
@@ -31,10 +33,11 @@ structure Fixes where
   d8   : Bool
   d9   : Bool
   late : Bool
+  canc : Bool
   deriving DecidableEq, Repr
 
-def Fixes.none : Fixes := ⟨false, false, false, false⟩
-def Fixes.all  : Fixes := ⟨true, true, true, true⟩
+def Fixes.none : Fixes := ⟨false, false, false, false, false⟩
+def Fixes.all  : Fixes := ⟨true, true, true, true, true⟩
 
 def MAGIC : Str := Gen.RC_MAGIC.toList
 def RC_FAILED : Int := (Gen.RC_FAILED : Int)
@@ -143,7 +146,13 @@ def aggLoop (fx : Fixes) (rc : Int) : List Host → Int
     let rc2 := if h.rc > rc1 then h.rc else rc1
     aggLoop fx rc2 t
 
-def aggregate (fx : Fixes) (hs : List Host) : Int := aggLoop fx 0 hs
+/-- how the loop's state test classifies a target: with the `canc` repair the test reads
+    `state == DSH_FAILED || state == DSH_CANCELED`, i.e. a canceled target is seen as a failed one
+    (the loop looks at the state through this one test only, so this mirrors the patched line exactly) -/
+def seen (fx : Fixes) (h : Host) : Host :=
+  if fx.canc && h.state = .canceled then { h with state := .failed } else h
+
+def aggregate (fx : Fixes) (hs : List Host) : Int := aggLoop fx 0 (hs.map (seen fx))
 
 structure Flags where
   S : Bool
